@@ -12,7 +12,21 @@ use crate::mon::runaway_budget;
 use crate::prng::Rng;
 
 fn from_string(text: &str) -> Result<Result<Vec<u8>, String>, PanicInfo> {
-    guarded(runaway_budget(text.len()), || RR::from_string(text).map(|rr| rr.packet).map_err(|e| e.to_string()))
+    guarded(runaway_budget(text.len()), || {
+        RR::from_string(text)
+            .map(|rr| {
+                // the record's own view of its data: exactly the bytes after the fixed part
+                let rd = rr.rdata().to_vec();
+                let mut p = rr.packet;
+                let n = p.len();
+                if n < rd.len() || p[n - rd.len()..] != rd[..] || n - rd.len() < 10 || u16::from_be_bytes([p[n - rd.len() - 2], p[n - rd.len() - 1]]) as usize != rd.len() {
+                    // make the disagreement visible to the caller's comparison with the reference wire form
+                    p.extend_from_slice(b"<rdata() disagrees with the record>");
+                }
+                p
+            })
+            .map_err(|e| e.to_string())
+    })
 }
 
 /// Is `rec_wire` a well-formed record? (wrapped in a response and given to the reference)
